@@ -66,11 +66,11 @@ def sweep(arg):
             except Exception as e:
                 evs.append({"ev": "iterIso", "T": T, "z": z, "res": [], "prop": [], "exc": type(e).__name__})
             # ---- invalid neighbours of element keys
-            for bad in {sym.lower(), sym.upper() if len(sym) > 1 else sym + "x", sym + "e", " " + sym}:
+            for bad in {sym.lower(), sym.upper() if len(sym) > 1 else sym + "x", sym + "e", " " + sym, sym + "\n", sym + " ", sym + "\t"}:
                 if bad != sym:
                     L("sym", T, {"s": bad}, lambda: t.symbol(bad))
                     L("iso", T, {"form": "sym", "sym": bad, "a": 0}, lambda: t.isotope(bad))
-            for bad in {name.capitalize(), name + "s", sym}:
+            for bad in {name.capitalize(), name + "s", sym, name + "\n"}:
                 L("name", T, {"s": bad}, lambda: t.name(bad))
             # ---- keys of one route offered to another: a name is not a symbol, a symbol is not a name
             for bad in (name, name.capitalize()):
@@ -88,7 +88,9 @@ def sweep(arg):
                 if a > 0:
                     s = "%d-%s" % (a, sym)
                     L("iso", T, {"form": "a-sym", "sym": sym, "a": a}, lambda: t.isotope(s))
-            for s, inp in [("%s-%d" % (sym, lo), {"form": "bad", "sym": sym, "a": lo}),
+            for s, inp in [("%d-%s\n" % (lo, sym), {"form": "bad", "sym": sym, "a": lo}),
+                           ("%d-%s " % (lo, sym), {"form": "bad", "sym": sym, "a": lo}),
+                           ("%s-%d" % (sym, lo), {"form": "bad", "sym": sym, "a": lo}),
                            ("%d-%s-1" % (lo, sym), {"form": "bad", "sym": sym, "a": lo}),
                            ("x-%s" % sym, {"form": "bad", "sym": sym, "a": 0}),
                            ("%d-%s" % (lo, sym.lower()), {"form": "a-sym", "sym": sym.lower(), "a": lo})]:
